@@ -136,15 +136,23 @@ INST_HANDLES(std::shared_mutex)
 INST_HANDLES(std::shared_timed_mutex)
 
 // ------------------------------------------------------- wrapper templates
+// -DVERIF_IR: the same unit must produce LLVM IR (thorough-tier cross-check), so the explicit
+// instantiations of classes that contain an uninstantiable member are left out there.
+#ifdef VERIF_IR
+#    define INST_BROKEN(M)
+#else
+#    define INST_BROKEN(M)                                                      \
+        template class gmlc::libguarded::guarded<P, M>;                         \
+        template class gmlc::libguarded::guarded_opt<P, M>;                     \
+        template class gmlc::libguarded::cow_guarded<P, M>;
+#endif
 #define INST_WRAPPERS(M)                                                        \
-    template class gmlc::libguarded::guarded<P, M>;                             \
-    template class gmlc::libguarded::guarded_opt<P, M>;                         \
+    INST_BROKEN(M)                                                              \
     template class gmlc::libguarded::shared_guarded<P, M>;                      \
     template class gmlc::libguarded::shared_guarded_opt<P, M>;                  \
     template class gmlc::libguarded::ordered_guarded<P, M>;                     \
     template class gmlc::libguarded::deferred_guarded<P, M>;                    \
     template class gmlc::libguarded::atomic_guarded<P, M>;                      \
-    template class gmlc::libguarded::cow_guarded<P, M>;                         \
     template class gmlc::libguarded::lr_guarded<P, M>;                          \
     template class gmlc::libguarded::shared_locker<M>;
 INST_WRAPPERS(std::mutex)
@@ -276,10 +284,12 @@ template void use_all<std::shared_timed_mutex>(const P&);
 #    define RCU_T std::string
 #endif
 using RcuT = RCU_T;
+#ifndef VERIF_IR
 template class gmlc::libguarded::rcu_list<RcuT, std::mutex, std::allocator<RcuT>>;
 template class gmlc::libguarded::rcu_list<RcuT,
                                           std::timed_mutex,
                                           vdrv::CountingAlloc<RcuT>>;
+#endif
 template class gmlc::libguarded::rcu_guarded<
     gmlc::libguarded::rcu_list<RcuT, std::mutex, std::allocator<RcuT>>>;
 template class gmlc::libguarded::rcu_guarded<
